@@ -4,6 +4,7 @@
   definition, literal opacity, interchangeable spellings.  They live here (not in C01…C15.lean) because their proofs
   import those files.  Theorem names keep the property prefix: the audit and the evidence files count them per property.
 -/
+import Rbql.Theorems.C13
 import Rbql.Proofs.RunLevel
 import Rbql.Proofs.LiteralOpacity
 import Rbql.Proofs.Characterisations
@@ -348,5 +349,38 @@ theorem C03_host_can_order_keys (q : SemQuery) (A B : Table) (sink : Sink)
     (h : ∀ scalar keys, sortedKeys q A B = some (scalar, keys) → KeysComparable scalar keys) :
     runChecked q A B sink = .result (run q A B sink) :=
   runChecked_of_comparable q A B sink h
+
+end Rbql
+
+namespace Rbql
+
+/-! ## C13 — the command line composes dialect selection with the faithful CSV adapter -/
+
+def CliPolicy.toPolicy : CliPolicy → Policy
+  | .simple => .simple | .quoted => .quoted | .quotedRfc => .quotedRfc | .whitespace => .whitespace | .monocolumn => .monocolumn
+
+theorem goodDelim_comma : GoodDelim [','] ([','] != [SPACE]) :=
+  ⟨by decide, by decide, by intro _; simp [NoLeadSpace]; decide⟩
+
+/-- `--out-format csv` (whatever `--delim` / `--policy` the input has): the output is comma-separated, quoted; and a result table written
+that way reads back — with the flags `--delim , --policy quoted`, in any chunking, LF / CRLF / CR line ends — as the table itself.
+So what `python -m rbql … --out-format csv` prints IS the result table `query_table` would return (C13_engine_depends_on_records_only
+gives the rest: the engine sees records only). -/
+theorem C13_cli_csv_output_is_the_result_table (delimArg : List Char) (p : Option CliPolicy)
+    (table : List (List Str)) (hne : ∀ fs ∈ table, fs ≠ [])
+    (hok : ∀ fs ∈ table, ∀ f ∈ fs, FieldOk [','] f ∧ NoNL f)
+    (sep : Str) (hsep : sep = [LF] ∨ sep = [CR, LF] ∨ sep = [CR])
+    (c : RCfg) (hc : 1 ≤ c.chunk)
+    (hdel : c.delim = (cliDialects delimArg p .csv).outDelim) (hpol : c.policy = (cliDialects delimArg p .csv).outPolicy.toPolicy)
+    (hcom : c.comment = none) (henc : c.enc = .none)
+    (pieces : List Str) (hp : ∀ q ∈ pieces, q ≠ [])
+    (htext : pieces.flatten = table.flatMap (fun fs => joinD [','] (fs.map (quoteField [','])) ++ sep)) :
+    readAll c false none pieces = .ok { header := none, records := table, warnings := fieldsWarnSpec table } := by
+  have hd : (cliDialects delimArg p .csv).outDelim = [','] := (C13_cli_out_format_named delimArg p).1.1
+  have hq : (cliDialects delimArg p .csv).outPolicy = .quoted := (C13_cli_out_format_named delimArg p).1.2
+  rw [hd] at hdel
+  rw [hq] at hpol
+  have := C13_csv_frontend_faithful_quoted goodDelim_comma (by decide) (by decide) table hne hok sep hsep c hc hdel hpol hcom henc false none pieces hp htext
+  simpa [effHeader] using this
 
 end Rbql
